@@ -5,6 +5,7 @@ import LimnoriaModel.C15.BootLemmas
 import LimnoriaModel.C15.ValidatorLemmas
 import LimnoriaModel.C15.NormLemmas
 import LimnoriaModel.C15.WrapLemmas
+import LimnoriaModel.C15.SaveLoadLemmas
 namespace C15
 open Py
 
@@ -376,17 +377,16 @@ value, the set `#channel` values, per `:network` its value when set and its set 
 written by `registry.close`, read by `open_registry` in a fresh process and rebuilt by
 `registerChannelValue` (or, for a tree with network values only, by `registerNetworkValue`) — node for node, with the same values and `_wasSet` flags, under `Storable`:
 the class reads back what it prints for every recorded value (`RT`, discharged below for String,
-Boolean, Integer), names are reader-safe and case-insensitively distinct, channel names are valid,
-no network name ends in a backslash, children are in `_added.sort()` order.  The new cache holds
-exactly the saved texts. -/
+NormalizedString, Boolean, Integer; every class of the model is covered, NormalizedString with its
+continuation lines), names are reader-safe and case-insensitively distinct, channel names are valid,
+no network name ends in a backslash, children are in `_added.sort()` order.  The new cache has one
+entry per saved node. -/
 theorem save_load_roundtrip (pr : Char → Bool) (c : ClassId) (dflt : Val) (K : Kind) (B : Str)
     (t : TreeSpec Val) (cache0 : Cache)
     (hK : K.chanV = true ∨ (K.netV = true ∧ t.chans = [] ∧ ∀ ns ∈ t.nets, ns.chans = []))
-    (hc : c ≠ .str .normalized)
     (h : Storable pr c dflt B t) :
-    saveLoad pr c dflt K B ⟨t.build, cache0⟩ =
-      .up ⟨t.build, (t.entries B).map fun kv => (kv.1, c.show pr kv.2)⟩ :=
-  saveLoad_normal_aux header_table_ok pr c dflt K B t cache0 hK hc h
+    ∃ cache', saveLoad pr c dflt K B ⟨t.build, cache0⟩ = .up ⟨t.build, cache'⟩ ∧ cache'.map (·.1) = t.keys B :=
+  saveLoad_normal_aux header_table_ok quotes_table_ok nw_table_ok pr c dflt K B t cache0 hK h
 
 /-- the same for a global variable (`registerGlobalValue`: no children) -/
 theorem save_load_global (pr : Char → Bool) (c : ClassId) (dflt v : Val) (B : Str) (cache0 : Cache)
@@ -411,6 +411,15 @@ theorem rt_string (pr : Char → Bool) (dflt : Val) (x : Str) : RT (ClassId.cls 
   intro cur
   show (StrClass.set .plain pr (strStr pr x)).map Val.s = .ok (.s x)
   have := string_variants_roundtrip .plain (by decide) pr x
+  simp only [StrClass.setValue] at this
+  rw [this]; rfl
+
+/-- `RT` for NormalizedString: every stored value (`normalize v`) -/
+theorem rt_normalized (pr : Char → Bool) (dflt : Val) (v : Str) :
+    RT (ClassId.cls pr (.str .normalized) dflt) (.s (normalizeNS v)) := by
+  intro cur
+  show (StrClass.set .normalized pr (strStr pr (normalizeNS v))).map Val.s = .ok (.s (normalizeNS v))
+  have := normalized_value_roundtrip pr v
   simp only [StrClass.setValue] at this
   rw [this]; rfl
 
